@@ -160,12 +160,12 @@ def _w_short(chunk):
 
 
 def long_family(ms, full):
-    A_ = '123456789' if full else '159'
+    A_ = '123456789' if full else '159'          # full: True = every a, b, d; 'mid' = every a, b with d in 0, 9
     B_ = '0123456789' if full else '0159'
     for m in ms:
         for a in A_:
             for b in B_:
-                for d in ('0123456789' if full else '09'):
+                for d in ('0123456789' if full is True else '09'):
                     yield a + d * m + b
         for d in '123456789':
             yield d * m
@@ -242,7 +242,7 @@ def run(ctx):
         special = [63, 64, 65, 127, 128, 129, 255, 256, 257, 511, 512, 1023, 1024, 1232, 1233, 1234, 1300]
         chunks = [([m], True) for m in full_ms] + [([m], False) for m in special]
     else:
-        chunks = [([m], True) for m in range(1, 1301)]
+        chunks = [([m], True) for m in range(1, 121)] + [([m], 'mid') for m in range(121, 1301)]
     ctx.pmap(_w_long, chunks)
     ctx.pmap(_w_round, core.ranges(1000, 25)[0:] if True else [])
     # of any length: beyond 4300 digits (the interpreter's int<->str conversion limit) too
@@ -250,7 +250,7 @@ def run(ctx):
     ctx.cov['model_transitions_reachable'] = len(model)
     ctx.cov['model_transitions_exercised_by_inputs_below_1000'] = len(hit)
     ctx.guard('every reachable transducer transition exercised', len(hit) == len(model))
-    ctx.bounds = {'all_numbers_below': top, 'operands': '0..9', 'periodic_long_numbers': 'prefixes of 9 periodic digit patterns at every long-chain length', 'long_chain_m': 'every m in 1..1300' if not ctx.quick else
+    ctx.bounds = {'all_numbers_below': top, 'operands': '0..9', 'periodic_long_numbers': 'prefixes of 9 periodic digit patterns at every long-chain length', 'long_chain_m': 'every m in 1..120 with every a,b,d; every m in 121..1300 with d in 0,9' if not ctx.quick else
                   'every m in 1..40 with all a,b,d; m in {63..65,127..129,255..257,511,512,1023,1024,1232..1234,1300} with a in 1,5,9 and b in 0,1,5,9'}
     ctx.rule = ('one case = (operation, canonical decimal string, operand digit) compared with Python int arithmetic; all '
                 'strings below the bound and the complete long-chain families a9^mb, a0^mb, d^m, 10^m; non-trivial = '
